@@ -412,6 +412,8 @@ def gen(rng, tier):
             c = [a[0] + t * (b[0] - a[0]), a[1] + t * (b[1] - a[1])]
         elif r < .3:
             b = list(a)
+        if rng.random() < .3:    # small-scale input: the orientation is a sign, not a magnitude
+            f = F(1, 2 ** rng.randint(8, 30)); a, b, c = [[x * f for x in p_] for p_ in (a, b, c)]; cnt('scale', 'small')
         out.append(Case('isleft', "isleft %s %s %s" % (show_list(a), show_list(b), show_list(c)), dict(a=a, b=b, c=c)))
     # ---- wn_poly
     npoly = 36 if quick else 500
@@ -460,6 +462,8 @@ def gen(rng, tier):
             pts = [[a[0] + t * d[0], a[1] + t * d[1]] for t in [F(rng.randint(-4, 4), rng.choice([1, 2])) for _ in range(n)]]; kind = 'colinear'
         else:               # many duplicates / lattice boundary points (colinear triples on the hull)
             pts = [[F(rng.randint(0, 2)), F(rng.randint(0, 2))] for _ in range(n)]; kind = 'lattice3'
+        if rng.random() < .3:    # small-scale input (coordinates down to 1e-9): the hull of f*P is f*hull(P)
+            f = F(1, 2 ** rng.randint(8, 30)); pts = [[x * f for x in p_] for p_ in pts]; kind += '-small'
         cnt('hull_kind', kind); cnt('hull_n', n)
         out.append(Case('hull', "hull %s" % show_pts(pts), dict(pts=pts)))
     # ---- rays
